@@ -89,7 +89,7 @@ fn is_f15_shape(sel: &str) -> bool {
     }
 }
 
-const HOSTS: &[&str] = &["a.com", "sub.a.com", "x.sub.a.com", "b.co.uk", "s.b.co.uk", "c.org", "localhost", "a.b.c.d.e.com", "10.0.0.1", "xn--bcher-kva.example"];
+const HOSTS: &[&str] = &["a.com", "sub.a.com", "x.sub.a.com", "b.co.uk", "s.b.co.uk", "c.org", "localhost", "a.b.c.d.e.com", "10.0.0.1", "xn--bcher-kva.example", "hr.apps.portal.lan", "portal.lan", "x.sub.a.corp"];
 
 fn sel(r: &mut Rng) -> String {
     r.pick(SELS).to_string()
@@ -98,7 +98,7 @@ fn sel(r: &mut Rng) -> String {
 fn location(r: &mut Rng) -> String {
     let mut parts = vec![];
     for _ in 0..r.below(4) {
-        let h = r.pick(&["a.com", "sub.a.com", "x.sub.a.com", "b.co.uk", "s.b.co.uk", "co.uk", "com", "c.org", "a.*", "sub.a.*", "b.*", "s.b.*", "localhost", "e.com", "d.e.com", "10.0.0.1", "b\u{fc}cher.example", "m\u{fc}nchen.b\u{fc}cher.example", "\u{43f}\u{440}\u{438}\u{43c}\u{435}\u{440}.\u{440}\u{444}"]);
+        let h = r.pick(&["a.com", "sub.a.com", "x.sub.a.com", "b.co.uk", "s.b.co.uk", "co.uk", "com", "c.org", "a.*", "sub.a.*", "b.*", "s.b.*", "localhost", "e.com", "d.e.com", "10.0.0.1", "portal.lan", "apps.portal.lan", "lan", "portal.*", "apps.portal.*", "hr.*", "a.corp", "sub.a.corp", "b\u{fc}cher.example", "m\u{fc}nchen.b\u{fc}cher.example", "\u{43f}\u{440}\u{438}\u{43c}\u{435}\u{440}.\u{440}\u{444}"]);
         parts.push(format!("{}{}", if r.pct(25) { "~" } else { "" }, h));
     }
     // a location list that is present but empty, or has empty parts
@@ -173,6 +173,7 @@ fn set_str(s: &HashSet<String>) -> String {
 
 pub fn run_c16(seed: u64, n: usize, out: &mut Out) {
     let mut r = Rng::new(seed);
+    let psl = crate::c12::Psl::load();
     let scripts = script_pool();
     let resources: Vec<_> = ["f1", "f2", "f3"].iter().map(|n| mk_resource(&format!("{}.js", n), &[], ResourceType::Mime(MimeType::ApplicationJavascript), &format!("function {}() {{ BODY }}", n), 0)).collect();
     for _ in 0..n {
@@ -268,7 +269,17 @@ pub fn run_c16(seed: u64, n: usize, out: &mut Out) {
                 out.bump(if expect { "generichide_expected" } else { "generichide_not_expected" });
             }
             let (ds, de) = adblock::url_parser::verif_get_host_domain(&host);
-            let domain = &host[ds..de];
+            let impl_domain = host[ds..de].to_string();
+            // the registrable domain the label walk stops at, from the public-suffix rule file itself (default
+            // rule `*` for unknown top-level domains; an address is its own domain)
+            let ref_domain = match &psl {
+                Some(p) if crate::c12::is_tame_host(&host) => p.domain(&host),
+                _ => impl_domain.clone(),
+            };
+            if ref_domain != impl_domain {
+                out.fail("registrable-domain-differs-from-reference", None, json!({"host": host, "impl_domain": impl_domain, "reference_domain": ref_domain}));
+            }
+            let domain = ref_domain.as_str();
             // surviving injections, recovered from the emitted calls
             let mut inj: HashSet<String> = HashSet::new();
             let script_lines: HashSet<&str> = res.injected_script.lines().collect();
